@@ -1,5 +1,5 @@
 (** Property C01: allow/deny lists decide by first matching group, else the default action. *)
-From Coq Require Import List NArith Bool.
+From Coq Require Import String List NArith Bool.
 From Seccomp Require Import Words Result Machine Policy Spec CompileProofs CoreTheorems Codegen CodegenTemplates.
 From Gen Require Import GenCodegen.
 Import ListNotations.
